@@ -99,9 +99,9 @@ CHECKS["C04"] = {
 
 CHECKS["C13"] = {
     "engine": "E1 lattice explorer",
-    "jobs": lambda tier: per_dim("C13.cpp", "C13", tier, quick=(1, 2, 3, 4, 5), thorough=tuple(range(1, 11))),
-    "rule": "unit = (order, N, duration word, scale); every unit builds the D-dimensional spline (generic data with a different vector per coordinate, and data confined to one coordinate) and the D one-dimensional splines of its coordinates and compares coefficients, evaluations, propagated point/boundary gradients and energy gradients coordinate by coordinate, energy / duration gradients as sums over coordinates, and repeats under every cyclic shift and one transposition of the coordinates; non-trivial = D >= 2",
-    "bounds": {"quick": "3 orders x D 1..5 x (N 1..5 all 3^N words, N 6 all 2^N)", "thorough": "3 orders x D 1..10 x (N 1..8 all 3^N words, N 9,10 all 2^N) x 3 scales"},
+    "jobs": lambda tier: per_dim("C13.cpp", "C13", tier, quick=tuple(range(1, 11)), thorough=tuple(range(1, 11))),
+    "rule": "unit = (order, N, duration word, scale); every unit builds the D-dimensional spline (generic data with a different vector per coordinate, and data confined to one coordinate) and the D one-dimensional splines of its coordinates and compares coefficients, evaluations, propagated point/boundary gradients and energy gradients coordinate by coordinate, energy / duration gradients as sums over coordinates, and repeats under every cyclic shift and one transposition of the coordinates; the same comparison on objects reached by update() (both overloads) from a fit whose coordinate 0 lies in a map frame (+2^22) while one waypoint / the boundary velocity of the last coordinate moves by 2^-22; non-trivial = D >= 2",
+    "bounds": {"quick": "3 orders x D 1..10 x (N 1..5 all 3^N words, N 6 all 2^N)", "thorough": "3 orders x D 1..10 x (N 1..8 all 3^N words, N 9,10 all 2^N) x 3 scales"},
     "thresholds": {"coefficients (C02 metric)": [3e-9, 1e-8, 1e-6], "gradients": "1e3 x that (same algorithm on both sides; measured bit-identical)", "sums (relative to the energy itself)": 1e-9},
     "assumptions": ASSUME_COMMON,
     "technique": TECH_E1 + "; differential oracle = the same class instantiated for DIM=1 per coordinate, and coordinate permutations",
@@ -176,7 +176,7 @@ CHECKS["C20"] = {
 CHECKS["C17"] = {
     "engine": "E1 lattice explorer",
     "jobs": lambda tier: [job("C17.cpp", "C17")],
-    "rule": "states = distinct floating-point inputs; unit = one exponent of the mantissa/exponent lattice (tau = +-m 2^e, T = m 2^e, 16 four-bit mantissas, e in [-60,19], capped at 1e6) or one exponent of the approach lattices c +- m 2^e, e in [-52,-1], towards each critical point c, or one block of 8192 CONSECUTIVE doubles around a critical point (tau around 0 incl. denormals and both signs, +-1, +-1e6; T around 1, 1e-6, 1e6); at every point: toTime > 0 and equal to the closed form (1e-14), toTime(tau) <= toTime(next double), toTime(tau + 16 ulp) > toTime(tau), backward = g T'(tau) (1e-14) and linear in g, toTau(toTime tau) = tau and toTime(toTau T) = T (1e-12), toTau monotone; one-sided derivatives and difference quotients at the switch; identity map bitwise; non-trivial = every unit",
+    "rule": "states = distinct floating-point inputs; unit = one exponent of the mantissa/exponent lattice (tau = +-m 2^e, T = m 2^e, 16 four-bit mantissas, e in [-60,19], capped at 1e6) or one exponent of the approach lattices c +- m 2^e, e in [-52,-1], towards each critical point c, or one block of 8192 CONSECUTIVE doubles around a critical point (tau around 0 incl. denormals and both signs, +-1, +-1e6; T around 1, 1e-6, 1e6); at every point: toTime > 0 and equal to the closed form (1e-14), toTime(tau) <= toTime(next double), toTime(tau + 16 ulp) > toTime(tau), backward = g T'(tau) (1e-14), linear in g and exactly homogeneous for g = +-2^k, k in [-900, 900], toTau(toTime tau) = tau and toTime(toTau T) = T (1e-12), toTau monotone; one-sided derivatives and difference quotients at the switch; identity map bitwise; the maps as the optimizer uses them: for ALL words of length <= 3 over the durations {1 ms, 1 ms (1+2^-31), 1-2^-32, 1, 1+2^-31, 3600 s} the time block of generateInitialGuess() is toTau(T_i) and evaluate() decodes x_i to toTime(x_i), entry by entry (bitwise); non-trivial = every unit",
     "bounds": {"quick": "2560 lattice points (4-bit mantissas) + approach lattices + 2^17 consecutive doubles around each of 8 critical points", "thorough": "40960 lattice points (8-bit mantissas) + approach lattices + 2^21 consecutive doubles around each of 8 critical points"},
     "thresholds": {"closed form / backward": 1e-14, "round trips": 1e-12, "monotone": "exact between adjacent doubles; strict at 16 ulp"},
     "assumptions": ASSUME_COMMON,
